@@ -951,7 +951,7 @@ def h_get_all_data_files(mode: str):
 
 
 def _replay_gadf(ob):
-    fallback = ob.get("verdict") == "undecided"
+    fallback = ob.get("verdict") in ("undecided", "scenario")
     return f"FALLBACK = {fallback!r}\n" + '''
 import sys, os, tempfile, shutil
 from datashard import create_table, load_table
